@@ -446,12 +446,6 @@ Proof.
 Qed.
 
 End CONV.
-Print Assumptions balanced_iff_depth.
-Print Assumptions wf_args_at_of_wf_args.
-Print Assumptions wf_args_of_wf_args_at.
-Print Assumptions command_stmt_accepted.
-Print Assumptions command_stmt_accepted_plain.
-Print Assumptions plain_command_exact.
 
 (* ================= 2. hoisting and patching for EVERY argument list (no restriction on inline pieces) ================= *)
 (* B5 / B10 as a theorem.  The parser leaves an empty placeholder for each inline piece and records the piece under the
@@ -555,7 +549,6 @@ Proof.
   - cbn [map app hd]. exact Him.
 Qed.
 End PATCH.
-Print Assumptions patched_arguments.
 
 Lemma pure_group_texts g : pure g -> group_texts g = [].
 Proof. induction 1 as [|p g Hp _ IH]; [reflexivity|]. unfold group_texts in *. cbn [flat_map]. rewrite IH. destruct p; try discriminate; reflexivity. Qed.
@@ -644,9 +637,6 @@ Proof.
     + constructor; [|exact Fcs]. cbn [cname ctok cargs cs_name cs_args]. split; [reflexivity|]. split; [reflexivity|constructor].
 Qed.
 End STRETCH.
-Print Assumptions final_arg_pure.
-Print Assumptions final_arg_simple.
-Print Assumptions stretch_hoisted_gen.
 
 (* ================= 3. the emitter on a body of command statements ================= *)
 From Pory Require Worklist.
@@ -730,8 +720,6 @@ Corollary emit_script_cmds_nomarkers tl name glob optimize cs :
   emit_script None tl name glob optimize (map SCmd cs) =
     Emitter.Ok (ILabel name glob :: map ICmd (kept_cmds cs) ++ [terminator cs; IBlank]).
 Proof. rewrite emit_script_cmds, render_cmds_nomarkers. reflexivity. Qed.
-Print Assumptions emit_script_cmds.
-Print Assumptions emit_script_cmds_nomarkers.
 
 (* ---------- the printed text ---------- *)
 Lemma last_endret_split cs e : last_endret cs = Some e ->
@@ -780,7 +768,6 @@ Proof.
     destruct e; cbn [flat_map print_instr app]; rewrite !app_nil_r; cbn [app]; reflexivity.
   - unfold print_instrs. cbn [flat_map print_instr]. rewrite !app_nil_r, <- !app_assoc. reflexivity.
 Qed.
-Print Assumptions script_text_cmds.
 
 (* ================= 4. end to end: a script that is a block of commands ================= *)
 (* the tokens before the script's name:  script   or   script ( global )   /   script ( local ) *)
@@ -966,8 +953,6 @@ Proof.
 Qed.
 
 End E2E.
-Print Assumptions straight_line_script.
-Print Assumptions straight_line_script_text.
 
 (* ================= 5. commands inside conditions (AutoVar commands) ================= *)
 From Pory Require AutoVarParse.
@@ -1021,7 +1006,6 @@ Proof.
     exists more. split; [exact E|apply P].
 Qed.
 End COND.
-Print Assumptions condition_command.
 
 (* ================= 6. straight-line stretches inside control constructs ================= *)
 From Coq Require Import Permutation.
@@ -1148,7 +1132,6 @@ Proof.
   pose proof (work_stretch body _ _ _ I0 S0 H) as F. rewrite Forall_forall in F. exact F.
 Qed.
 Local Transparent work_fuel work.
-Print Assumptions chunks_are_source_stretches.
 
 (* ---------- every chunk's statements are printed as consecutive instructions ---------- *)
 From Pory Require WorkShape OrderPerm.
@@ -1198,7 +1181,6 @@ Proof.
     by (intros; rewrite <- !app_assoc; reflexivity).
   eexists _, _. apply AS.
 Qed.
-Print Assumptions stretch_rendered_in_order.
 
 Local Transparent work_fuel work.
 
